@@ -45,6 +45,9 @@ fn rpsi_ok(f: &Rpsi<'_>, fci: &[u8]) {
     let (bytes, ignore) = f.bit_string();
     assert!(ignore < 8);
     assert!(bytes.as_ptr() == fci[2..].as_ptr(), "bit string does not start after the header");
+    // the padding cannot be longer than the bit string it pads
+    assert!(pb <= 8 * (fci.len() - 2), "accepted more padding bits than the bit string has");
+    assert!(8 * bytes.len() >= ignore, "more bits to ignore than the returned string has");
     assert!(8 * bytes.len() - ignore == 8 * (fci.len() - 2) - pb, "padding bits not removed");
 }
 
@@ -139,7 +142,7 @@ pub fn fci_rpsi<S: Src, const N: usize>(s: &mut S) {
             vcover!(d[0] % 8 != 0 && d[0] > 8, "padding bytes and bits");
         }
         // rejected only when there is no header or the padding exceeds the string
-        Err(_) => assert!(len < 4 || (d[0] / 8) as usize > len - 2),
+        Err(_) => assert!(len < 4 || d[0] as usize > 8 * (len - 2)),
     }
 }
 
